@@ -509,6 +509,8 @@ private:
         void stackDown(int count = 1)
         {
             stackLevel -= count;
+            if(stackLevel < -1)
+                stackLevel = -1; // An end or break of a loop that was never entered (after a seek into its middle)
         }
 
         LoopStackEntry &getCurStack()
